@@ -190,6 +190,9 @@ class Stack:
             elif k in INTERP:
                 l["index"] = cur_in[0]
                 l["real"] = self.real
+                # half of the float-coordinate interpolators are spelled the way users spell them: with the
+                # DEFAULT coordinate type (float) rather than an explicit one
+                l["default_coord"] = self.real == "float" and rng.random() < 0.5
                 if k == "linear":
                     if cur_out[0] not in REALS:
                         self.ok = False
@@ -561,9 +564,9 @@ class Stack:
             elif k == "hilbert":
                 ty = "cb::hilbert<%s, %s>" % (vecd(l["in"][0], l["in"][1]), inner)
             elif k == "linear":
-                ty = "cb::linear<%s, %s>" % (inner, vecd(l["real"], l["in"][1]))
+                ty = "cb::linear<%s>" % inner if l.get("default_coord") else "cb::linear<%s, %s>" % (inner, vecd(l["real"], l["in"][1]))
             elif k == "nn":
-                ty = "cb::nearest_neighbour<%s, %s>" % (inner, vecd(l["real"], l["in"][1]))
+                ty = "cb::nearest_neighbour<%s>" % inner if l.get("default_coord") else "cb::nearest_neighbour<%s, %s>" % (inner, vecd(l["real"], l["in"][1]))
             elif k == "clamp":
                 ty = "cb::clamp<%s>" % inner
             elif k == "backup":
